@@ -125,6 +125,10 @@ type H[E cmp.Ordered] struct {
 	// pairs; nil for the three hash kinds.
 	Iterate func() ([]E, []E)
 
+	// Variadic lists the variadic entry points besides the constructor:
+	// name -> call(index, values...) (index is used by Insert only).
+	Variadic map[string]func(i int, vs ...E)
+
 	// Container view (for containers.GetSortedValues*)
 	Container containers.Container[E]
 	Less      func(a, b E) int // the configured comparator (natural when none)
@@ -143,8 +147,10 @@ func Comparator[E cmp.Ordered](rev bool) func(a, b E) int {
 	return natural[E]
 }
 
-// New builds a fresh, empty container.
-func New[E cmp.Ordered](cfg Cfg) *H[E] {
+// New builds a fresh container.  init is passed to the constructor of the
+// kinds whose constructor is variadic (the three lists and the three sets) and
+// ignored elsewhere.
+func New[E cmp.Ordered](cfg Cfg, init ...E) *H[E] {
 	h := &H[E]{Cfg: cfg}
 	less := Comparator[E](cfg.Rev && UsesComparator(cfg.Kind))
 	h.Less = less
@@ -157,10 +163,10 @@ func New[E cmp.Ordered](cfg Cfg) *H[E] {
 	}
 	switch cfg.Kind {
 	case "arraylist":
-		c := arraylist.New[E]()
+		c := arraylist.New[E](init...)
 		h.Obj, h.Container, h.AsJSON = c, c, c
 		h.Add, h.AddN, h.RemIndex, h.Clear = func(x E) { c.Add(x) }, c.Add, c.Remove, c.Clear
-		h.Get = nil
+		h.Variadic = map[string]func(int, ...E){"Add": func(_ int, vs ...E) { c.Add(vs...) }, "Insert": func(i int, vs ...E) { c.Insert(i, vs...) }}
 		h.Size, h.Empty, h.Values, h.String = c.Size, c.Empty, c.Values, c.String
 		h.ToJSON, h.FromJSON = c.ToJSON, c.FromJSON
 		h.Iterate = func() (ks, vs []E) {
@@ -170,9 +176,10 @@ func New[E cmp.Ordered](cfg Cfg) *H[E] {
 			return nil, vs
 		}
 	case "singlylinkedlist":
-		c := singlylinkedlist.New[E]()
+		c := singlylinkedlist.New[E](init...)
 		h.Obj, h.Container, h.AsJSON = c, c, c
 		h.Add, h.AddN, h.RemIndex, h.Clear = func(x E) { c.Add(x) }, c.Add, c.Remove, c.Clear
+		h.Variadic = map[string]func(int, ...E){"Add": func(_ int, vs ...E) { c.Add(vs...) }, "Append": func(_ int, vs ...E) { c.Append(vs...) }, "Prepend": func(_ int, vs ...E) { c.Prepend(vs...) }, "Insert": func(i int, vs ...E) { c.Insert(i, vs...) }}
 		h.Size, h.Empty, h.Values, h.String = c.Size, c.Empty, c.Values, c.String
 		h.ToJSON, h.FromJSON = c.ToJSON, c.FromJSON
 		h.Iterate = func() (ks, vs []E) {
@@ -182,9 +189,10 @@ func New[E cmp.Ordered](cfg Cfg) *H[E] {
 			return nil, vs
 		}
 	case "doublylinkedlist":
-		c := doublylinkedlist.New[E]()
+		c := doublylinkedlist.New[E](init...)
 		h.Obj, h.Container, h.AsJSON = c, c, c
 		h.Add, h.AddN, h.RemIndex, h.Clear = func(x E) { c.Add(x) }, c.Add, c.Remove, c.Clear
+		h.Variadic = map[string]func(int, ...E){"Add": func(_ int, vs ...E) { c.Add(vs...) }, "Append": func(_ int, vs ...E) { c.Append(vs...) }, "Prepend": func(_ int, vs ...E) { c.Prepend(vs...) }, "Insert": func(i int, vs ...E) { c.Insert(i, vs...) }}
 		h.Size, h.Empty, h.Values, h.String = c.Size, c.Empty, c.Values, c.String
 		h.ToJSON, h.FromJSON = c.ToJSON, c.FromJSON
 		h.Iterate = func() (ks, vs []E) {
@@ -195,15 +203,17 @@ func New[E cmp.Ordered](cfg Cfg) *H[E] {
 			return nil, vs
 		}
 	case "hashset":
-		c := hashset.New[E]()
+		c := hashset.New[E](init...)
 		h.Obj, h.Container, h.AsJSON = c, c, c
+		h.Variadic = map[string]func(int, ...E){"Add": func(_ int, vs ...E) { c.Add(vs...) }}
 		h.Add, h.AddN, h.RemKey, h.Clear = func(x E) { c.Add(x) }, c.Add, func(k E) { c.Remove(k) }, c.Clear
 		h.Get = func(k E) (E, bool) { return k, c.Contains(k) }
 		h.Size, h.Empty, h.Values, h.String = c.Size, c.Empty, c.Values, c.String
 		h.ToJSON, h.FromJSON = c.ToJSON, c.FromJSON
 	case "treeset":
-		c := treeset.NewWith[E](less)
+		c := treeset.NewWith[E](less, init...)
 		h.Obj, h.Container, h.AsJSON = c, c, c
+		h.Variadic = map[string]func(int, ...E){"Add": func(_ int, vs ...E) { c.Add(vs...) }}
 		h.Add, h.AddN, h.RemKey, h.Clear = func(x E) { c.Add(x) }, c.Add, func(k E) { c.Remove(k) }, c.Clear
 		h.Get = func(k E) (E, bool) { return k, c.Contains(k) }
 		h.Size, h.Empty, h.Values, h.String = c.Size, c.Empty, c.Values, c.String
@@ -216,8 +226,9 @@ func New[E cmp.Ordered](cfg Cfg) *H[E] {
 			return nil, vs
 		}
 	case "linkedhashset":
-		c := linkedhashset.New[E]()
+		c := linkedhashset.New[E](init...)
 		h.Obj, h.Container, h.AsJSON = c, c, c
+		h.Variadic = map[string]func(int, ...E){"Add": func(_ int, vs ...E) { c.Add(vs...) }}
 		h.Add, h.AddN, h.RemKey, h.Clear = func(x E) { c.Add(x) }, c.Add, func(k E) { c.Remove(k) }, c.Clear
 		h.Get = func(k E) (E, bool) { return k, c.Contains(k) }
 		h.Size, h.Empty, h.Values, h.String = c.Size, c.Empty, c.Values, c.String
@@ -304,6 +315,7 @@ func New[E cmp.Ordered](cfg Cfg) *H[E] {
 	case "binaryheap":
 		c := binaryheap.NewWith[E](less)
 		h.Obj, h.Container, h.AsJSON = c, c, c
+		h.Variadic = map[string]func(int, ...E){"Push": func(_ int, vs ...E) { c.Push(vs...) }}
 		h.Add, h.AddN, h.Take, h.Peek, h.Clear = func(x E) { c.Push(x) }, c.Push, c.Pop, c.Peek, c.Clear
 		h.Size, h.Empty, h.Values, h.String = c.Size, c.Empty, c.Values, c.String
 		h.ToJSON, h.FromJSON = c.ToJSON, c.FromJSON
